@@ -58,6 +58,11 @@ def install(repo):
     atexit.register(_dump)
     os.register_at_fork(after_in_child=_child)
 
+    def on_term(signum, frame):
+        _dump()
+        os._exit(3)
+    signal.signal(signal.SIGTERM, on_term)
+
 
 def report(d, repo="/repo"):
     import ast
